@@ -658,7 +658,7 @@ def gen_cases(rng, tier, fields, gfq, bigG=(), bnd=()):
             add("sqrfree", F, [], [P], meta, kc + "; " + kl)
             for op in (("cz", "cz.mod", "cz.factor")[i % 3],):
                 m2 = dict(meta)
-                m2["isolate"] = kc.startswith("non-monic")      # unrepaired sqrfree writes past g[nb] on these: own process
+                m2["isolate"] = False      # (before fix-1 sqrfree wrote past g[nb] on the non-monic ones and needed a process of its own)
                 add(op, F, stream(rng, 60 + 40 * len(P), F), [P], m2, kc + "; " + kl)
 
     # ---- 3. distinct-degree / equal-degree splitting on square-free inputs
@@ -1561,19 +1561,13 @@ def run_proc(binary, text, wall, cpu):
 
 
 def run_isolated(himpl, cases, wall=900, cpu=90):
-    """run the cases in one process; cases flagged `isolate` get a process of their own.  When the process dies (a crash inside
+    """run the cases in one process.  When the process dies (a crash inside
     the library) or is stopped by its CPU-time limit (a loop that draws no random value; CPU time does not depend on the load
     of the machine), CRASH / HANG is recorded for the case it stopped on and the rest is run in a new process (at most 4 such
     restarts, then the rest is SKIPPED).  A wall-clock time-out is a time-out of the tooling: the unanswered cases are run once
     more, then recorded as TIMEOUT = inconclusive.  Returns (output lines, number of inconclusive cases)."""
     out = [None] * len(cases)
     ninc = 0
-    for i, c in enumerate(cases):
-        if c.meta.get("isolate"):
-            st, lines = run_proc(himpl, c.line() + "\n", wall, cpu)
-            lines = [l for l in lines if re.search(r"#\d+\s*$", l)]
-            out[i] = lines[0] if lines else ("HANG (CPU-time limit of %d s)" % cpu if st == "cpu" else
-                                             "TIMEOUT" if st == "wall" else "CRASH %s" % st)
     rest = [i for i in range(len(cases)) if out[i] is None]
     stops = walls = 0
     while rest:
